@@ -287,7 +287,7 @@ Fixpoint json_to_x (fuel : nat) (sec : bool) (j : json) : xval :=
   | O => XScalar sec false SNull
   | S f =>
     match j with
-    | JNull => XScalar sec false SNull
+    | JNull => XScalar false false SNull            (* esc.FromJSON: `case nil: return Value{}` drops the flag *)
     | JBool b => XScalar sec false (SBool b)
     | JNum t => XScalar sec false (SNum t)
     | JStr s => XScalar sec false (SStr s)
